@@ -115,7 +115,15 @@ fn play_opts(calls: &[Call], rng: &mut Rng, r: &mut Report, rp: &dyn Fn() -> Jso
                 },
                 Call::InsertTgv(i) => {
                     let op = [rspirv::spirv::Op::TypeBool, rspirv::spirv::Op::TypeVoid, rspirv::spirv::Op::TypeSampler][*i % 3];
-                    let ip = if *i % 2 == 0 { rspirv::dr::InsertPoint::End } else { rspirv::dr::InsertPoint::Begin };
+                    // every insertion point that is in range for the section's current length
+                    let len = b.module_ref().types_global_values.len();
+                    let k = (*i / 4) % (len + 1);
+                    let ip = match *i % 4 {
+                        0 => rspirv::dr::InsertPoint::End,
+                        1 => rspirv::dr::InsertPoint::Begin,
+                        2 => rspirv::dr::InsertPoint::FromEnd(k),
+                        _ => rspirv::dr::InsertPoint::FromBegin(k),
+                    };
                     b.insert_types_global_values(ip, dr::Instruction::new(op, None, None, vec![]));
                     Res::NoResult
                 }
@@ -181,6 +189,7 @@ fn play_opts(calls: &[Call], rng: &mut Rng, r: &mut Report, rp: &dyn Fn() -> Jso
             }
             Call::SelectFunction(_) => "select_function".into(),
             Call::SelectBlock(_) => "select_block".into(),
+            Call::InsertTgv(_) => "InsertTgv".into(),
             other => format!("{:?}", other),
         };
         let res = match outcome {
@@ -479,7 +488,7 @@ pub fn run(cfg: &Cfg, rep: &mut Report) {
                 8 | 9 => Call::Stub(ep),
                 10 | 11 => Call::SelectByName(rng.below(3)),
                 12 => Call::SelectBlock(Some(rng.below(3))),
-                13 => Call::InsertTgv(rng.below(6)),
+                13 => Call::InsertTgv(rng.below(48)),
                 14 => Call::Stub(if rng.chance(1, 2) { tb } else { tv }),
                 _ => Call::SelectFunction(Some(rng.below(3))),
             });
